@@ -50,7 +50,7 @@ func ruleC03_1(c *Ctx) {
 			return
 		}
 		nret++
-		if isNilConst(r.Results[0]) {
+		if isNilConst(results(r)[0]) {
 			return
 		}
 		name := fmt.Sprintf("OnCReact: EnqueueOutFrag ⇝ return #%d (%s)", nret, returnLabel(r))
@@ -125,7 +125,7 @@ func ruleC03_2(c *Ctx) {
 			switch x := in.(type) {
 			case *ssa.Return:
 				if len(x.Results) == 2 {
-					if ld, ok := x.Results[1].(*ssa.UnOp); ok && ld.X == ssa.Value(movedOrAsk) {
+					if ld, ok := results(x)[1].(*ssa.UnOp); ok && ld.X == ssa.Value(movedOrAsk) {
 						report("the redirect return (→ OnMoved writes f.Peer.Fd2Slot and re-sends)", in)
 					}
 				}
